@@ -69,6 +69,11 @@ func c10Contradict(a, b string) bool {
 	if fam(a) != "" && fam(a) == fam(b) {
 		return true // the second of two builders / plans / ClientHello paddings overwrites or duplicates the first
 	}
+	// a plan-rf- / plan-steps- knob carries its own frame builder (c10_planrf_test.go)
+	own := func(n string) bool { return strings.HasPrefix(n, "plan-rf-") || strings.HasPrefix(n, "plan-steps-") }
+	if own(a) && strings.HasPrefix(b, "fb-") || own(b) && strings.HasPrefix(a, "fb-") {
+		return true
+	}
 	big := func(n string) bool { return n == "toklen300" }
 	return big(a) && strings.HasPrefix(b, "plan-") || big(b) && strings.HasPrefix(a, "plan-")
 }
@@ -128,7 +133,9 @@ var c10Knobs = func() []c10Knob {
 		c10Knob{"plan-999-1200", func(s *quic.QUICSpec) {
 			c10Pad(s, 900)
 			s.InitialPacketSpec.FrameBuilder = nil // a builder with its own total Length would contradict the exact packet size
-			s.InitialPacketSpec.InitialPackets = []quic.InitialPacketPlan{{CryptoLength: 999, PacketSize: 1200}, {PacketSize: 1200}}
+			// every datagram after the first is pinned too: "all remaining CRYPTO" (CryptoLength 0) in an
+			// exact 1200-byte packet would contradict itself once the ClientHello needs a third datagram
+			s.InitialPacketSpec.InitialPackets = []quic.InitialPacketPlan{{CryptoLength: 999, PacketSize: 1200}, {CryptoLength: 999, PacketSize: 1200}}
 		}},
 		c10Knob{"plan-1250", func(s *quic.QUICSpec) {
 			s.InitialPacketSpec.FrameBuilder = nil
@@ -148,6 +155,8 @@ var c10Knobs = func() []c10Knob {
 		c10Knob{"ch-2datagrams", func(s *quic.QUICSpec) { c10Pad(s, 1300) }},
 		c10Knob{"ch-3datagrams", func(s *quic.QUICSpec) { c10Pad(s, 2500) }},
 	)
+	// appended last so that the indices of the knobs above (used in replay files) stay put
+	k = append(k, c10PlanBuilderKnobs()...)
 	return k
 }()
 
@@ -495,29 +504,51 @@ func c10Run(t *testing.T, cfg c10Config) c10Outcome {
 	return out
 }
 
-// c10Attribute re-keys a failure to the base configuration when the unmodified base fails
-// the same way.
-func c10Attribute(t *testing.T, cache map[int]string, cfg c10Config, o *c10Outcome) {
+// c10Attribute gives one defect one key: a failure is re-keyed to the smallest configuration
+// that fails the same way (same key suffix) - the unmodified base spec; else, for a pair of
+// knobs, one of the two alone; and then the same knobs on the zero spec (last entry of
+// c10Bases) when the failure does not depend on the fingerprint.
+func c10Attribute(t *testing.T, cache map[string]string, cfg c10Config, o *c10Outcome) {
 	if o.fail == nil || len(cfg.Knobs) == 0 {
 		return
 	}
 	suffix := strings.TrimPrefix(o.fail.Key, cfg.id())
-	bs, ok := cache[cfg.Base]
-	if !ok {
-		bc := c10Config{Base: cfg.Base, Seed: cfg.Seed}
-		if r := c10Run(t, bc); r.fail != nil {
-			bs = strings.TrimPrefix(r.fail.Key, bc.id())
+	same := func(c c10Config) bool {
+		c.Seed = cfg.Seed
+		ck := fmt.Sprint(c.Base, c.Knobs)
+		bs, ok := cache[ck]
+		if !ok {
+			if r := c10Run(t, c); r.fail != nil {
+				bs = strings.TrimPrefix(r.fail.Key, c.id())
+			}
+			cache[ck] = bs
 		}
-		cache[cfg.Base] = bs
+		return bs != "" && bs == suffix
 	}
-	if bs != "" && bs == suffix {
+	if same(c10Config{Base: cfg.Base}) {
 		o.fail.Key = c10Config{Base: cfg.Base}.id() + suffix
+		return
 	}
+	red := c10Config{Base: cfg.Base, Knobs: cfg.Knobs}
+	if len(cfg.Knobs) > 1 {
+		for _, k := range cfg.Knobs {
+			if c := (c10Config{Base: cfg.Base, Knobs: []int{k}}); same(c) {
+				red = c
+				break
+			}
+		}
+	}
+	if zero := len(c10Bases) - 1; red.Base != zero {
+		if c := (c10Config{Base: zero, Knobs: red.Knobs}); same(c) {
+			red = c
+		}
+	}
+	o.fail.Key = red.id() + suffix
 }
 
 func TestVerifC10(t *testing.T) {
 	sim.InitCerts(t)
-	cache := map[int]string{}
+	cache := map[string]string{}
 	mk := func(e explore.Env) ([]c10Config, string) {
 		var cfgs []c10Config
 		seed := uint64(e.Seed) + 3
@@ -535,7 +566,12 @@ func TestVerifC10(t *testing.T) {
 						}
 						// quick tier: only a layout (frame builder or packet plan) combined with a
 						// ClientHello size that spreads it over 2-4 datagrams
-						if !e.Thorough() && !(strings.HasPrefix(c10Knobs[k2].Name, "ch-") && (strings.HasPrefix(c10Knobs[k1].Name, "fb-") || strings.HasPrefix(c10Knobs[k1].Name, "plan-"))) {
+						isCH := func(k int) bool { return strings.HasPrefix(c10Knobs[k].Name, "ch-") }
+						isLayout := func(k int) bool {
+							n := c10Knobs[k].Name // plan-steps-* bring their own ClientHello size
+							return strings.HasPrefix(n, "fb-") || strings.HasPrefix(n, "plan-") && !strings.HasPrefix(n, "plan-steps-")
+						}
+						if !e.Thorough() && !(isCH(k2) && isLayout(k1) || isCH(k1) && isLayout(k2)) {
 							continue
 						}
 						cfgs = append(cfgs, c10Config{Base: b, Knobs: []int{k1, k2}, Seed: seed})
@@ -543,7 +579,7 @@ func TestVerifC10(t *testing.T) {
 				}
 			}
 		}
-		return cfgs, fmt.Sprintf("7 built-in fingerprints + zero spec x every one-knob deviation (%d knobs: CID lengths 0/1/7/8/20, initial packet numbers 0..2^64-1, PN length lists, tokens, frame builders, per-datagram plans, UDP minimum sizes, ClientHello sizes; every frame builder / packet plan x every ClientHello size; in thorough every pair except contradictory ones: two knobs of one layout family, a 300-byte token with an exact packet plan) x 3 dials with different seeds; silent peer, first flight + PTO retransmissions within 1.5 s", len(c10Knobs))
+		return cfgs, fmt.Sprintf("7 built-in fingerprints + zero spec x every one-knob deviation (%d knobs: CID lengths 0/1/7/8/20, initial packet numbers 0..2^64-1, PN length lists, tokens, frame builders, per-datagram plans, the plan x random-builder lattice of c10_planrf_test.go (CryptoLength x PacketSize x builder Length around the plan's CRYPTO frame x CRYPTO frame count x builder kind), UDP minimum sizes, ClientHello sizes; every frame builder / packet plan x every ClientHello size; in thorough every pair except contradictory ones: two knobs of one layout family, a 300-byte token with an exact packet plan) x 3 dials with different seeds; silent peer, first flight + PTO retransmissions within 1.5 s", len(c10Knobs))
 	}
 	part := explore.Part{
 		Name: "flight-vs-spec",
